@@ -159,6 +159,20 @@ def ordEngine (f : String) (args : List String) : String :=
     match d.toInt?, k.toInt?, n.toNat?, Ord.parseInts xs with
     | some d, some k, some n, some xs => if d ≥ 1 then Ord.heapRun d k (dec == "1") n xs else "bad-op"
     | _, _, _, _ => "bad-op"
+  | "select", [d, target, fa, fb, xs] =>
+    -- quickselect by key x / d; the comparator errors on the pair (fa, fb)
+    match d.toInt?, target.toNat?, fa.toInt?, fb.toInt?, Ord.parseInts xs with
+    | some d, some t, some fa, some fb, some xs =>
+      if d ≥ 1 then
+        let cmp : Sort.Cmp3 String Int := fun _ a b =>
+          if a == fa && (fb == -1 || b == fb) then .error "E" else .ok (Derive.sign (a / d - b / d))
+        match Sort.Select.nthSmallest cmp xs t with
+        | none => "oob"
+        | some (.ok (x, _) _) => s!"ok {x}"
+        | some (.fail _ _ _) => "fail"
+        | some .panic => "panic"
+      else "bad-op"
+    | _, _, _, _, _ => "bad-op"
   | "derive", [op, a, b] =>
     match Ord.parseV a.toList, Ord.parseV b.toList with
     | some (va, []), some (vb, []) => Ord.deriveOp op va vb
